@@ -542,30 +542,39 @@ def sem(name, S, args, info):
         nb = n // 8
         df = S.pre('df', 1) == 1
         step = z3.If(df, bv(-nb % (1 << 32), 32), bv(nb, 32))
-        esi, edi = S.pre('esi'), S.pre('edi')
+        esi_full, edi_full = S.pre('esi'), S.pre('edi')
+        a16 = info.get('adsize', 32) == 16
+        # address-size prefix: si / di address the operands and only their low words are updated
+        esi = z3.ZeroExt(16, z3.Extract(15, 0, esi_full)) if a16 else esi_full
+        edi = z3.ZeroExt(16, z3.Extract(15, 0, edi_full)) if a16 else edi_full
+
+        def adv(full):
+            if a16:
+                return z3.Concat(z3.Extract(31, 16, full), z3.Extract(15, 0, full + step))
+            return full + step
         acc = z3.Extract(n - 1, 0, S.pre('eax'))
         stem = name[:-1]
         if stem == 'movs':
             S.store(edi, S.rdmem(esi, nb))
-            S.set('esi', esi + step)
-            S.set('edi', edi + step)
+            S.set('esi', adv(esi_full))
+            S.set('edi', adv(edi_full))
         elif stem == 'stos':
             S.store(edi, acc)
-            S.set('edi', edi + step)
+            S.set('edi', adv(edi_full))
         elif stem == 'lods':
             v = S.rdmem(esi, nb)
             eax = S.pre('eax')
             S.set('eax', v if n == 32 else z3.Concat(z3.Extract(31, n, eax), v))
-            S.set('esi', esi + step)
+            S.set('esi', adv(esi_full))
         elif stem == 'cmps':
             x, y = S.rdmem(esi, nb), S.rdmem(edi, nb)
             S.sub_flags(x, y, x - y)
-            S.set('esi', esi + step)
-            S.set('edi', edi + step)
+            S.set('esi', adv(esi_full))
+            S.set('edi', adv(edi_full))
         else:
             y = S.rdmem(edi, nb)
             S.sub_flags(acc, y, acc - y)
-            S.set('edi', edi + step)
+            S.set('edi', adv(edi_full))
     elif name == 'jmp':
         S.eip = zx(rd(a[0]), 32)
     elif name == 'call':
@@ -582,12 +591,15 @@ def sem(name, S, args, info):
     elif name in ('loop', 'loope', 'loopne', 'jecxz'):
         ecx = S.pre('ecx')
         dst = zx(rd(a[-1]), 32)
+        a16 = info.get('adsize', 32) == 16          # address-size prefix: the counter is cx
         if name == 'jecxz':
-            taken = ecx == 0
+            taken = (z3.Extract(15, 0, ecx) == 0) if a16 else (ecx == 0)
         else:
             n2 = ecx - 1
+            if a16:
+                n2 = z3.Concat(z3.Extract(31, 16, ecx), z3.Extract(15, 0, ecx) - 1)
             S.set('ecx', n2)
-            taken = n2 != 0
+            taken = (z3.Extract(15, 0, n2) != 0) if a16 else (n2 != 0)
             if name == 'loope':
                 taken = z3.And(taken, S.pre('zf', 1) == 1)
             elif name == 'loopne':
